@@ -7,6 +7,16 @@ BASELINE = ("cd /repo && (cargo nextest run --workspace --no-fail-fast --tool-co
 
 # id -> (level, technique, level text, note, design ref)
 CHECKS = {
+ "C08": ("exploration",
+         "parameter-grid enumeration of attack families + proptest documents; oracle = independent usage/replay model for acceptance, counting visitor for delivered nodes, counting global allocator for peak heap",
+         "Whole parameter grid of alias bombs, alias chains, aliases inside anchored containers, nested anchors (flow/block), wide merges and long complex keys x 9 limit settings (defaults; node / total-replay / per-anchor limits at usage and usage-1; replay stack depth 0/1), plus generated documents: delivered nodes <= min(node, event limit)+2, accepted iff the model is within all limits (matching error category otherwise), peak heap within 64 KiB + 16 x (input + 96 B x raw events) + 2 x 96 B x replayed events, nested-anchor scaling <= 4x. Exploration over the grid and samples; the constants of the memory bound are design choices.",
+         "trusts the harness' usage model and allocator accounting; one open finding (recording cost of nested anchored containers) excludes NestedAnchors d>=4, chains >=4 and documents with >=4 nested anchored containers",
+         "DESIGN.md section 3 C08"),
+ "C18": ("exploration",
+         "model-based property testing with harness-rendered documents and ground-truth positions; exhaustive single/double violated-leaf enumeration + proptest documents/streams; recording Localizer as observation channel",
+         "A fixed family of garde+validator types; documents rendered by the harness with every leaf supplied directly / through aliases / through merges; all 21 leaves x 6 supplies x 7 entry points x 2 crates x 3 styles with one violated leaf, all 210 leaf pairs, random documents and streams: validated entry points == plain ones when nothing is violated; otherwise the reported path set equals the harness-evaluated constraint set, each path's use site / definition site equal the renderer's ground truth (observed through a recording Localizer and Error::locations()), every failing document of a stream is reported. Exploration over enumerated and sampled documents.",
+         "trusts the harness' renderer positions and constraint evaluator (cross-checked against the crates' own validate()); use site of values through merges / aliased mappings and locations of validator map entries are not fixed by the docs and only safety-checked",
+         "DESIGN.md section 3 C18; notes/report-C18.md"),
  "C07": ("exploration",
          "reference-model property-based testing: an independent counter over raw saphyr-parser events plus a replay model gives the usage U; limits U_c / U_c-1 probe threshold exactness; exhaustive prefix histories for per-document enforcement",
          "For generated streams (anchors, aliases to containers, nested replay, merges) and a fixed enumeration of small documents: report == independent count, check_yaml_budget == raw count, every limit set to the usage is accepted and usage-1 is rejected with the matching breach at the first exceeding raw event, budgets >= usage never reject, ratio heuristic exact at its boundary; all prefix histories of length <= 3 (thorough 4) over 7 document kinds x 4 final documents x 7 lowered limits for per-document independence of the streaming iterator. Exploration over generated inputs and enumerated histories.",
